@@ -174,6 +174,9 @@ fn check_text(par: &str, spec: &OptSpec, prior: bool) -> Outcome {
     };
     let splitter = spec.split.splitter();
     let words = fragments(par, spec, &splitter);
+    if words.len() > 600 {
+        return Outcome::Skip("more than 600 fragments (the partition search is quadratic)");
+    }
     let rooms: Vec<u64> = (0..bodies.len())
         .map(|k| room(spec, prior, k) as u64)
         .collect();
